@@ -209,7 +209,10 @@ def normalise(e, depth=0):
             src = strip_refs(src[2][0])
         # the payload of `x.map(f)` is f(payload of x); of `x.cloned()` / `x.as_ref()` / `x.ok()` … the payload of x
         # (the same placeholders the combinator expansion of cases_expr produces)
-        if src[0] == "call" and src[1] and src[2]:
+        inner_ = pathsum.through_variant_preserving(src)[0] if src[0] == "call" else None
+        if inner_ is not None and inner_[0] == "call" and inner_[1] and M.match(inner_[1].get("path") or ""):
+            inner_ = None       # the chain bottoms out in a combinator that is not variant-preserving (and_then, or_else …): left to cases_expr
+        if inner_ is not None and src[0] == "call" and src[1] and src[2]:
             pth = src[1].get("path") or ""
             m = M.match(pth)
             if m and m.group(2) in ("copied", "cloned", "as_ref", "as_deref", "as_mut", "as_deref_mut", "inspect", "map_err", "inspect_err", "ok", "ok_or", "ok_or_else"):
